@@ -430,6 +430,18 @@ def run_task(task):
                   max_paths=task.get("max_paths", 20000))
 
 
+def _die_with_parent():
+    """pool workers must not outlive a killed driver (Linux: SIGKILL on parent death)"""
+    try:
+        import ctypes
+        import signal
+        ctypes.CDLL("libc.so.6", use_errno=True).prctl(1, signal.SIGKILL)  # PR_SET_PDEATHSIG
+        if os.getppid() == 1:
+            os._exit(0)
+    except Exception:
+        pass
+
+
 def run_tasks(tasks, nproc=None):
     import multiprocessing as mp
     from concurrent.futures import ProcessPoolExecutor, as_completed
@@ -438,7 +450,7 @@ def run_tasks(tasks, nproc=None):
         return [run_task(t) for t in tasks]
     ctx = mp.get_context("spawn")
     out = [None] * len(tasks)
-    with ProcessPoolExecutor(max_workers=nproc, mp_context=ctx) as ex:
+    with ProcessPoolExecutor(max_workers=nproc, mp_context=ctx, initializer=_die_with_parent) as ex:
         futs = {ex.submit(run_task, t): i for i, t in enumerate(tasks)}
         for f in as_completed(futs):
             i = futs[f]
